@@ -487,7 +487,7 @@ pub fn kappa(cell: &Cell) -> f64 {
         Fam::ChiSquared | Fam::StudentT => g(0).max(1.0 / g(0)),
         Fam::FisherF => g(0).max(g(1)).max(1.0 / g(0)).max(1.0 / g(1)),
         Fam::Beta => g(0).max(g(1)).max(1.0 / g(0)).max(1.0 / g(1)),
-        Fam::Pert | Fam::PertMean => (g(3) + 2.0).max((g(0).abs().max(g(1).abs())) / (g(1) - g(0)).abs()) * if cell.fam == Fam::PertMean { 1.0 + 2.0 / g(3).max(1e-3) } else { 1.0 },
+        Fam::Pert | Fam::PertMean => (g(3) + 2.0).max((g(0).max(g(1))) / (p[1] - p[0]).abs()) * if cell.fam == Fam::PertMean { 1.0 + 2.0 / g(3).max(1e-3) } else { 1.0 },
         Fam::LogNormalMeanCv => g(1).max(1.0 / g(1).max(1e-3)).max(g(0).ln().abs()),
         Fam::Pareto | Fam::Weibull => g(1).max(1.0 / g(1)),
         Fam::Frechet => g(2).max(1.0 / g(2)),
